@@ -139,6 +139,22 @@ def main():
             res['error_text'] = str(ex)[:200]
         res['inputs_unchanged'] = all(sc.identical(params[k], snap[k], equal_nan=True) for k in params) and (
             x is None or sc.identical(x, xsnap, equal_nan=True))
+        if not res['inputs_unchanged']:
+            # which argument was modified in place: name -> [value before, value after]
+            mod = {k: [stored(snap[k])['values'], stored(params[k])['values']] for k in params
+                   if not sc.identical(params[k], snap[k], equal_nan=True)}
+            if x is not None and not sc.identical(x, xsnap, equal_nan=True):
+                mod['x'] = [stored(xsnap)['values'][:8], stored(x)['values'][:8]]
+            res['modified'] = mod
+        if 'result' in res:
+            # the same call once more with the SAME model and argument objects: the result may not depend on
+            # what an earlier evaluation left behind (in the arguments or in the model object)
+            try:
+                r2 = model(x, **params) if g['what'] == 'call' else model.fwhm(params)
+                if isinstance(r2, sc.Variable) and isinstance(r, sc.Variable) and not sc.identical(r2, r, equal_nan=True):
+                    res['repeat'] = describe(r2)
+            except Exception as ex:
+                res['repeat'] = {'error': type(ex).__name__}
         out.append(res)
     print('RESULT ' + json.dumps({'groups': out, 'scipp': sc.__version__}))
 
